@@ -713,6 +713,17 @@ def write_evidence(prop, tier, seed, records, complete, bounded, canaries, n_obl
     if os.path.exists(np):
         notes = json.load(open(np)).get(prop, {})
     scan = source_scan()
+    inv_path = os.path.join(VERIF, 'contracts', 'assumption_inventory.json')
+    inventory_status = 'no committed inventory'
+    if os.path.exists(inv_path):
+        try:
+            inv = json.load(open(inv_path))
+            inventory_status = 'matches the committed inventory' if inv == scan else 'DIFFERS from the committed inventory (contracts/assumption_inventory.json): ' + \
+                ', '.join(sorted(k for k in set(inv) | set(scan) if inv.get(k) != scan.get(k)))
+        except Exception as e:
+            inventory_status = f'inventory unreadable: {e}'
+    if inventory_status.startswith('DIFFERS'):
+        log('ASSUMPTION-INVENTORY ' + inventory_status)
     trusted = list(notes.get('trusted_base', []))
     for f, pats in scan.items():
         trusted.append(f'scan {f}: ' + ', '.join(f'{k} x{v}' for k, v in pats.items()))
@@ -735,6 +746,7 @@ def write_evidence(prop, tier, seed, records, complete, bounded, canaries, n_obl
             'bounded_standins': [{'obligation': r['id'], 'bound': r.get('bound'), 'status': r['status'], 'cbmc_s': r.get('cbmc_s'),
                                   'checks': r.get('checks_total')} for r in bounded],
             'canaries': [{'obligation': r['id'], 'status': r['status']} for r in canaries],
+            'assumption_scan': inventory_status,
             'functions_under_contract': notes.get('functions_under_contract', []),
             'undecided_clauses': notes.get('undecided_clauses', []),
             'woven': woven,
